@@ -107,7 +107,8 @@ def post_kekule(k, ref, tag, allowed, name='K'):
 
 
 def check_molecule(m0, tag, stereo=False, seed=0, n_renumber=2, rdkit_smiles=None, c01=None):
-    """all contracts on the parsed (not normalised) input m0; returns (violations [(contract, what)], canonical aromatic string, has aromatic ring)"""
+    """all contracts on the parsed (not normalised) input m0; returns (violations [(contract, what)], (canonical aromatic string, aromatic
+    normal form) or None / "rejected", has aromatic ring)"""
     import random
     from oracles import o05_graph as G
     from bounded import domains
